@@ -71,11 +71,28 @@ TwinFails(e) == TwinFailsOf(e, e.x, e.obs.twins, e.obs.surr, "", FALSE)
                       THEN {"TwinsDef|RecurrenceNetwork.twins after set_fixed_threshold"} ELSE {})
                 \cup (IF e.obs.rp_shape # <<2, Len(Embed(e.x, e.dim, 1)), e.dim>>
                       THEN {"Shape|RecurrencePlot.twin_surrogates"} ELSE {})
+\* ---- periodic series x_t = t mod q, threshold 1/2: closed form of the twins -------------------------------------
+\* the twins of state j (1-based) are the states of the same phase further apart than md (0-based, ascending) -
+\* provided the phase has more than one state
+RECURSIVE PeriodicTwinList(_, _, _, _, _)
+PeriodicTwinList(n, q, md, j, k) ==
+  IF k > n THEN <<>>
+  ELSE (IF (k - j) % q = 0 /\ Abs(k - j) > md THEN <<k - 1>> ELSE <<>>) \o PeriodicTwinList(n, q, md, j, k + 1)
+PhaseSize(n, q, j) == Cardinality({k \in 1..n : (k - j) % q = 0})
+PeriodicTwins(n, q, md) == [j \in 1..n |-> IF PhaseSize(n, q, j) > 1 THEN PeriodicTwinList(n, q, md, j, 1) ELSE <<>>]
+BigTwinFails(e) ==
+  LET n == e.n  cf == PeriodicTwins(n, e.q, e.md)
+      x == [t \in 1..n |-> (t - 1) % e.q]
+  IN \* on the small instances the closed form IS the definition (states at distance 0 recur)
+     (IF n <= 12 /\ cf # Twins(RecS(Embed(x, 1, 1), 0), e.md) THEN {"GenExact|closed form of periodic twins"} ELSE {})
+     \cup (IF e.obs.rp_twins # cf THEN {"TwinsDef|RecurrencePlot.twins(periodic series)"} ELSE {})
+     \cup (IF e.obs.s_twins # cf THEN {"TwinsDef|Surrogates.twins(periodic series)"} ELSE {})
 Verdict(e) ==
   LET tags == e.blk \o (IF e.blk = "spec" THEN (IF ZeroAmplitude(e) THEN ",zero_amplitude" ELSE "") \o ",n" \o ToString(e.n) \o ",k" \o ToString(e.k)
+                        ELSE IF e.blk = "bigtwin" THEN ",n" \o ToString(e.n) \o ",period" \o ToString(e.q) \o ",md" \o ToString(e.md)
                         ELSE ",dim" \o ToString(e.dim) \o ",md" \o ToString(e.md) \o ",thr" \o ToString(e.thr)) IN
   IF e.obs.exc # "" THEN <<"REJECT", "Applicable", e.obs.exc, tags>>
-  ELSE LET f == IF e.blk = "spec" THEN SpecFails(e) ELSE TwinFails(e) IN
+  ELSE LET f == IF e.blk = "spec" THEN SpecFails(e) ELSE IF e.blk = "bigtwin" THEN BigTwinFails(e) ELSE TwinFails(e) IN
        IF f = {} THEN <<"ACCEPT", "", "", tags>> ELSE <<"REJECT", "Multi", JoinSet(f), tags>>
 Verdicts == TLCEval([k \in 1..Len(Trace) |-> Verdict(Trace[k])])
 Init == i = 1
